@@ -120,11 +120,16 @@ type arMember struct {
 	call *ssa.Call
 	done *ssa.BasicBlock // exit block of the table loop the call sits in (nil: straight-line)
 	row  int
+	site *ssa.Call // call in the analysed function through which a helper writes this member (nil: written directly)
 }
 
 // arWriter finds the module helper that writes one ar member (a function that
 // calls (*ar.Writer).WriteHeader and Write) and its call sites in fn.
 func arMembers(c *Ctx, fn *ssa.Function) []arMember {
+	return arMembersDepth(c, fn, 2)
+}
+
+func arMembersDepth(c *Ctx, fn *ssa.Function, depth int) []arMember {
 	var out []arMember
 	forEachInstr(fn, func(in ssa.Instruction) {
 		call, ok := in.(*ssa.Call)
@@ -142,6 +147,31 @@ func arMembers(c *Ctx, fn *ssa.Function) []arMember {
 			}
 		})
 		if !writes {
+			// a helper that is handed the archive writer and writes members
+			// itself: its members, with its parameters read as the arguments
+			// of this call
+			takesWriter := false
+			for _, a := range call.Call.Args {
+				if isPtrToNamed(a.Type(), "github.com/blakesmith/ar", "Writer") {
+					takesWriter = true
+				}
+			}
+			if !takesWriter || depth == 0 || len(sc.Blocks) == 0 {
+				return
+			}
+			up := func(v ssa.Value) ssa.Value {
+				for i, q := range sc.Params {
+					if ssa.Value(q) == v && i < len(call.Call.Args) {
+						return call.Call.Args[i]
+					}
+				}
+				return v
+			}
+			for _, m := range arMembersDepth(c, sc, depth-1) {
+				m.name, m.body = up(m.name), up(m.body)
+				m.site = call
+				out = append(out, m)
+			}
 			return
 		}
 		var name, body ssa.Value
@@ -169,20 +199,41 @@ func arMembers(c *Ctx, fn *ssa.Function) []arMember {
 							if n == nil || b == nil {
 								return
 							}
-							out = append(out, arMember{n, b, call, done, i})
+							out = append(out, arMember{name: n, body: b, call: call, done: done, row: i})
 						}
 						return
 					}
 				}
 			}
 		}
-		out = append(out, arMember{name, body, call, nil, 0})
+		out = append(out, arMember{name: name, body: body, call: call})
 	})
 	return out
 }
 
 // memberBefore: a is written before b on every path that writes b.
 func memberBefore(a, b arMember) bool {
+	if a.site != nil || b.site != nil {
+		if a.site == b.site {
+			// both written by the helper called at one site: order inside it
+			// (nested helpers are not ordered any further)
+			if a.call.Parent() != b.call.Parent() {
+				return false
+			}
+			return memberBefore(arMember{call: a.call, done: a.done, row: a.row}, arMember{call: b.call, done: b.done, row: b.row})
+		}
+		pa, pb := a.call, b.call
+		if a.site != nil {
+			pa = a.site
+		}
+		if b.site != nil {
+			pb = b.site
+		}
+		if a.site == nil && a.done != nil {
+			return a.done == pb.Block() || a.done.Dominates(pb.Block())
+		}
+		return instrDominates(pa, pb)
+	}
 	switch {
 	case a.call == b.call:
 		return a.done != nil && a.row < b.row
@@ -191,6 +242,14 @@ func memberBefore(a, b arMember) bool {
 	default:
 		return instrDominates(a.call, b.call)
 	}
+}
+
+// at: the instruction of the analysed function at which the member is written.
+func (m arMember) at() *ssa.Call {
+	if m.site != nil {
+		return m.site
+	}
+	return m.call
 }
 
 func constOrEmpty(v ssa.Value) string {
@@ -249,9 +308,26 @@ func checkDebSigning(c *Ctx, r *Report, pa *provAnalysis) {
 		r.Unresolved("deb ar members", "could not identify debian-binary, control.tar.gz, the data member and the _gpg member")
 		return
 	}
-	// the signing call in Package: module call taking three []byte
-	var signCall *ssa.Call
-	forEachInstr(pk.Package, func(in ssa.Instruction) {
+	// the signing calls: module calls taking three []byte, in Package or in
+	// the helper that writes the signature member; a helper's parameters are
+	// read as the arguments of its call in Package
+	scopeFns := []*ssa.Function{pk.Package}
+	up := func(v ssa.Value) ssa.Value { return v }
+	if sigMember.site != nil {
+		h := sigMember.site.Call.StaticCallee()
+		scopeFns = append(scopeFns, h)
+		site := sigMember.site
+		up = func(v ssa.Value) ssa.Value {
+			for i, q := range h.Params {
+				if ssa.Value(q) == v && i < len(site.Call.Args) {
+					return site.Call.Args[i]
+				}
+			}
+			return v
+		}
+	}
+	var signCalls []*ssa.Call
+	forEachInstrIn(scopeFns, func(in ssa.Instruction) {
 		call, ok := in.(*ssa.Call)
 		if !ok || call.Call.StaticCallee() == nil || !c.isModuleFunc(call.Call.StaticCallee()) {
 			return
@@ -262,43 +338,72 @@ func checkDebSigning(c *Ctx, r *Report, pa *provAnalysis) {
 				n++
 			}
 		}
-		if n == 3 && call != bin.call && call != ctl.call {
-			signCall = call
+		if n == 3 && call != bin.call && call != ctl.call && call != sigMember.site {
+			signCalls = append(signCalls, call)
 		}
 	})
-	if signCall == nil {
+	if len(signCalls) == 0 {
 		r.Unresolved("deb signing call", "no call in Package hands three byte slices to a signing function")
 		return
 	}
-	var signed []ssa.Value
-	for _, a := range signCall.Call.Args {
-		if a.Type().String() == "[]byte" {
-			signed = append(signed, a)
-		}
-	}
 	want := []ssa.Value{bin.body, ctl.body, dataMember.body}
-	okSame := len(signed) == 3
-	for i := range want {
-		if okSame && signed[i] != want[i] {
-			okSame = false
+	isSignCall := map[ssa.Value]bool{}
+	for _, signCall := range signCalls {
+		isSignCall[signCall] = true
+		var signed []ssa.Value
+		for _, a := range signCall.Call.Args {
+			if a.Type().String() == "[]byte" {
+				signed = append(signed, up(a))
+			}
 		}
+		okSame := len(signed) == 3
+		for i := range want {
+			if okSame && signed[i] != want[i] {
+				okSame = false
+			}
+		}
+		construct := "deb: bytes handed to the signer are the stored member bodies, in member order"
+		if len(signCalls) > 1 {
+			construct += " (" + signCall.Call.StaticCallee().Name() + ")"
+		}
+		r.Check(okSame, "F12-deb", construct, c.instrPos(signCall),
+			"the signing function must receive exactly the values written as debian-binary, control.tar.gz and the data member, in that order")
 	}
-	r.Check(okSame, "F12-deb", "deb: bytes handed to the signer are the stored member bodies, in member order", c.instrPos(signCall),
-		"the signing function must receive exactly the values written as debian-binary, control.tar.gz and the data member, in that order")
+	// every value that can be the signer's result #idx (phi edges flattened)
+	fromSigner := func(v ssa.Value, idx int) bool {
+		var vals []ssa.Value
+		seen := map[ssa.Value]bool{}
+		var flat func(v ssa.Value)
+		flat = func(v ssa.Value) {
+			if seen[v] {
+				return
+			}
+			seen[v] = true
+			if phi, ok := v.(*ssa.Phi); ok {
+				for _, e := range phi.Edges {
+					flat(e)
+				}
+				return
+			}
+			vals = append(vals, v)
+		}
+		flat(v)
+		for _, x := range vals {
+			ex, ok := x.(*ssa.Extract)
+			if !ok || !isSignCall[ex.Tuple] || ex.Index != idx {
+				return false
+			}
+		}
+		return len(vals) > 0
+	}
 	// signature member name: "_gpg" + type returned by the signer
 	okName := false
 	if bo, ok := sigMember.name.(*ssa.BinOp); ok {
-		if ex, ok := bo.Y.(*ssa.Extract); ok && ex.Tuple == ssa.Value(signCall) {
-			okName = true
-		}
+		okName = fromSigner(bo.Y, 1)
 	}
 	r.Check(okName, "F12-deb", "deb: signature member is _gpg<type>", c.instrPos(sigMember.call), "the member name must be \"_gpg\" followed by the signature type the signer reports")
 	// the signature body is the signer's result
-	okBody := false
-	if ex, ok := sigMember.body.(*ssa.Extract); ok && ex.Tuple == ssa.Value(signCall) && ex.Index == 0 {
-		okBody = true
-	}
-	r.Check(okBody, "F12-deb", "deb: _gpg member holds the signer's output", c.instrPos(sigMember.call), "the stored signature must be the value returned by the signing function")
+	r.Check(fromSigner(sigMember.body, 0), "F12-deb", "deb: _gpg member holds the signer's output", c.instrPos(sigMember.call), "the stored signature must be the value returned by the signing function")
 	// member order: signature written after the three members
 	r.Check(memberBefore(bin, ctl) && memberBefore(ctl, *dataMember) && memberBefore(*dataMember, *sigMember), "F12-deb", "deb: member order binary, control, data, signature", c.instrPos(bin.call), "members must be written in this order on every path")
 
@@ -1079,30 +1184,49 @@ func returnsTyped(c *Ctx, f *ssa.Function, inprog map[*ssa.Function]bool, depth 
 			continue
 		}
 		res := retResults(ret)
-		v := res[idx]
-		if k, ok := v.(*ssa.Const); ok && k.IsNil() {
-			continue
+		// every value that can reach the return (phi edges flattened)
+		var vals []ssa.Value
+		seenV := map[ssa.Value]bool{}
+		var flat func(v ssa.Value)
+		flat = func(v ssa.Value) {
+			if seenV[v] {
+				return
+			}
+			seenV[v] = true
+			if phi, ok := v.(*ssa.Phi); ok {
+				for _, e := range phi.Edges {
+					flat(e)
+				}
+				return
+			}
+			vals = append(vals, v)
 		}
-		if mi, ok := v.(*ssa.MakeInterface); ok && isPtrToNamed(mi.X.Type(), modPath, "ErrSigningFailure") {
-			continue
-		}
-		var call *ssa.Call
-		switch x := v.(type) {
-		case *ssa.Extract:
-			call, _ = x.Tuple.(*ssa.Call)
-		case *ssa.Call:
-			call = x
-		}
-		if call != nil {
-			if sc := call.Call.StaticCallee(); sc != nil && sc.Blocks != nil && c.isModuleFunc(sc) {
-				if ok, why := returnsTyped(c, sc, inprog, depth+1); ok {
-					continue
-				} else {
-					return false, why
+		flat(res[idx])
+		for _, v := range vals {
+			if k, ok := v.(*ssa.Const); ok && k.IsNil() {
+				continue
+			}
+			if mi, ok := v.(*ssa.MakeInterface); ok && isPtrToNamed(mi.X.Type(), modPath, "ErrSigningFailure") {
+				continue
+			}
+			var call *ssa.Call
+			switch x := v.(type) {
+			case *ssa.Extract:
+				call, _ = x.Tuple.(*ssa.Call)
+			case *ssa.Call:
+				call = x
+			}
+			if call != nil {
+				if sc := call.Call.StaticCallee(); sc != nil && sc.Blocks != nil && c.isModuleFunc(sc) {
+					if ok, why := returnsTyped(c, sc, inprog, depth+1); ok {
+						continue
+					} else {
+						return false, why
+					}
 				}
 			}
+			return false, fmt.Sprintf("the return at %s in %s can carry an error that is not a *nfpm.ErrSigningFailure: callers cannot identify it as a signing failure with errors.As", c.instrPos(ret), c.funcKey(f))
 		}
-		return false, fmt.Sprintf("the return at %s in %s can carry an error that is not a *nfpm.ErrSigningFailure: callers cannot identify it as a signing failure with errors.As", c.instrPos(ret), c.funcKey(f))
 	}
 	return true, "every return carries nil or a *nfpm.ErrSigningFailure"
 }
@@ -1188,5 +1312,24 @@ func checkPGPConfigFields(c *Ctx, r *Report) {
 				fmt.Sprintf("fields set besides SigningKeyId/DefaultHash: %v; the library's defaults (current time for key validity, its own randomness) are what makes a configured key produce a verifying signature", uniq(extra)))
 		})
 	}
-	r.Floor("K-pgp-config", n, 2)
+	// a configuration obtained from a helper must not be amended afterwards
+	for _, fn := range c.ModFuncs {
+		if c.funcPkgPath(fn) != modPath+"/internal/sign" {
+			continue
+		}
+		forEachInstr(fn, func(in ssa.Instruction) {
+			fa, ok := in.(*ssa.FieldAddr)
+			if !ok || !isNamed(derefType(fa.X.Type()), "github.com/ProtonMail/go-crypto/openpgp/packet", "Config") {
+				return
+			}
+			if _, isAl := fa.X.(*ssa.Alloc); isAl {
+				return
+			}
+			if name := fieldName(fa.X.Type(), fa.Field); !allowed[name] {
+				r.Fail("K-pgp-config", fmt.Sprintf("%s: OpenPGP config field %s", c.funcKey(fn), name), c.instrPos(fa),
+					"field set besides SigningKeyId/DefaultHash on a configuration handed to the library")
+			}
+		})
+	}
+	r.Floor("K-pgp-config", n, 1)
 }
